@@ -153,9 +153,9 @@ def index_classes(t, edb_param, tk_param, depth=0, memo=None):
     if not isinstance(t, (tuple, frozenset)) or depth > 60:
         return {"indep"}
     k = id(t)
-    if k in memo:
-        return memo[k]
-    memo[k] = {"indep"}
+    if k in memo and memo[k][0] is t:
+        return memo[k][1]
+    memo[k] = (t, {"indep"})
     if isinstance(t, tuple) and t and t[0] in ("sub", "mcall", "elem") and edb_path(t, edb_param) is not None:
         res = {"hit"}
     elif t == ("param", tk_param):
@@ -181,7 +181,7 @@ def index_classes(t, edb_param, tk_param, depth=0, memo=None):
                 cs = index_classes(c, edb_param, tk_param, depth + 1, memo)
                 cur = {a if _RANK[a] >= _RANK[b] else b for a in cur for b in cs}
         res = cur
-    memo[k] = res
+    memo[k] = (t, res)
     return res
 
 
